@@ -131,6 +131,20 @@ Theorem C11_context_errors_irrelevant : forall l i, handler (with_ctx_errs l i) 
 Proof. exact ctx_errs_irrelevant. Qed.
 Print Assumptions C11_context_errors_irrelevant.
 
+(* a status code carried by something the error merely wraps (fmt %w, errors.Join, Unwrap()
+   []error, As methods, entries of a merge error) plays no role: both handlers ask the error
+   itself, and such an error gets the translator's verdict (500 by default) *)
+Theorem C11_buried_status_irrelevant : forall b i, handler (with_buried b i) = handler i.
+Proof. exact buried_irrelevant. Qed.
+Print Assumptions C11_buried_status_irrelevant.
+
+Theorem C11_wrapped_status_error : forall i e n,
+  i_resp i = None -> i_err i = Some e -> e_status e = None -> e_buried e = Some n ->
+  valid_code (i_errf i) = true ->
+  exists o, handler i = Reply o /\ o_status o = i_errf i.
+Proof. exact wrapped_status. Qed.
+Print Assumptions C11_wrapped_status_error.
+
 (* the independently written implementations send the same two headers *)
 Theorem C11_impls_agree : forall i im1 im2 o1 o2,
   meta_disjoint i ->
@@ -188,30 +202,34 @@ Example C11_ex_max_age :
   = ["public, max-age=0"; "public, max-age=1"; "public, max-age=0"; "public, max-age=-1"; "public, max-age=86400"].
 Proof. vm_compute. reflexivity. Qed.
 Example C11_ex_error_status : forall im,
-  exists o, handler (ex_input im None (Some {| e_status := Some 418%Z; e_multi := false; e_msg := "tea" |}) 0) = Reply o
+  exists o, handler (ex_input im None (Some {| e_status := Some 418%Z; e_multi := false; e_msg := "tea"; e_buried := None |}) 0) = Reply o
             /\ o_status o = 418%Z /\ o_completed o = ["false"].
 Proof. destruct im; eexists; vm_compute; repeat split; reflexivity. Qed.
 Example C11_ex_error_500 : forall im,
-  exists o, handler (ex_input im None (Some {| e_status := None; e_multi := true; e_msg := "a" |}) 0) = Reply o
+  exists o, handler (ex_input im None (Some {| e_status := None; e_multi := true; e_msg := "a"; e_buried := None |}) 0) = Reply o
             /\ o_status o = 500%Z.
 Proof. destruct im; eexists; vm_compute; repeat split; reflexivity. Qed.
 (* latitude of the statement: empty response with an error - gin renders it, mux answers with the error *)
 Example C11_ex_empty_with_error :
-  let e := Some {| e_status := Some 404%Z; e_multi := false; e_msg := "nf" |} in
+  let e := Some {| e_status := Some 404%Z; e_multi := false; e_msg := "nf"; e_buried := None |} in
   let r := Some {| r_data := Some []; r_complete := true; r_meta := []; r_status := 0; r_io := None |} in
   (exists o, handler (ex_input Gin r e 0) = Reply o /\ o_status o = 200%Z /\ o_body o = BJson (JObj [])) /\
   (exists o, handler (ex_input Mux r e 0) = Reply o /\ o_status o = 404%Z /\ o_body o = BRaw ("nf" ++ nl)).
 Proof. split; eexists; vm_compute; repeat split; reflexivity. Qed.
 (* the panic branch is reachable, and only with an invalid status *)
 Example C11_ex_panic :
-  handler (ex_input Mux None (Some {| e_status := Some 0%Z; e_multi := false; e_msg := "" |}) 0) = Panic /\
-  exists o, handler (ex_input Gin None (Some {| e_status := Some 0%Z; e_multi := false; e_msg := "" |}) 0) = Reply o
+  handler (ex_input Mux None (Some {| e_status := Some 0%Z; e_multi := false; e_msg := ""; e_buried := None |}) 0) = Panic /\
+  exists o, handler (ex_input Gin None (Some {| e_status := Some 0%Z; e_multi := false; e_msg := ""; e_buried := None |}) 0) = Reply o
             /\ o_status o = 200%Z.
 Proof. split; [|eexists]; vm_compute; repeat split; reflexivity. Qed.
 Example C11_ex_ctx_errs :
-  let e := Some {| e_status := Some 418%Z; e_multi := false; e_msg := "tea" |} in
+  let e := Some {| e_status := Some 418%Z; e_multi := false; e_msg := "tea"; e_buried := None |} in
   exists o, handler (with_ctx_errs [CEPlain; CEStatus 503; CEMeta] (ex_input Gin None e 0)) = Reply o /\ o_status o = 418%Z.
 Proof. eexists; vm_compute; split; reflexivity. Qed.
+Example C11_ex_wrapped : forall im,
+  exists o, handler (ex_input im None (Some {| e_status := None; e_multi := false; e_msg := "w: no content"; e_buried := Some 204%Z |}) 0) = Reply o
+            /\ o_status o = 500%Z.
+Proof. destruct im; eexists; vm_compute; split; reflexivity. Qed.
 (* the recorded finding has inputs, and they are recognised *)
 Example C11_ex_in_finding : forall im, in_finding (spoof_input im "x-krakend-completed" "true") = true.
 Proof. destruct im; vm_compute; reflexivity. Qed.
